@@ -116,6 +116,7 @@ pub fn check(a: &BTreeMap<String, String>) -> i32 {
     merged.profile = "merged".into();
     let mut per_profile: BTreeMap<String, (u64, u64)> = BTreeMap::new();
     let mut crashes: Vec<(usize, String)> = Vec::new();
+    let mut hang_found: Vec<Found> = Vec::new();
     let mut next = 0usize;
     let mut running: Vec<usize> = Vec::new();
     let mut harness_errors = 0;
@@ -155,6 +156,44 @@ pub fn check(a: &BTreeMap<String, String>) -> i32 {
                             }
                             None => {
                                 eprintln!("harness error: worker {ji} produced no readable result");
+                                harness_errors += 1;
+                            }
+                        }
+                    } else if status.code() == Some(3) && std::path::Path::new(&format!("{}.hang", j.out_file)).exists() {
+                        // the worker's own monitor saw a run make no progress: rebuild that plan in a child process
+                        let h = std::fs::read_to_string(format!("{}.hang", j.out_file)).unwrap_or_default();
+                        let mut it = h.split_whitespace();
+                        let idx = it.next().and_then(|x| x.parse::<u64>().ok()).unwrap_or(j.from);
+                        let var = it.next().and_then(|x| x.parse::<i64>().ok()).unwrap_or(-1);
+                        let mut c = Command::new(&j.bin);
+                        c.args(["plan", "--prop", &prop, "--seed", &seed.to_string(), "--run", &idx.to_string(), "--tier", &tier]);
+                        if var >= 0 {
+                            c.args(["--variant", &var.to_string()]);
+                        }
+                        let plan = c.stderr(Stdio::null()).output().ok().and_then(|o| serde_json::from_slice::<Plan>(&o.stdout).ok());
+                        let plan = plan.or_else(|| {
+                            Command::new(&j.bin).args(["plan", "--prop", &prop, "--seed", &seed.to_string(), "--run", &idx.to_string()]).stderr(Stdio::null()).output().ok().and_then(|o| serde_json::from_slice::<Plan>(&o.stdout).ok())
+                        });
+                        match plan {
+                            Some(plan) => hang_found.push(Found {
+                                sig: crate::driver::Sig { property: prop.clone(), rule: "nonterminating-op".into(), op: "-".into(), callback: "-".into() },
+                                replay: Replay {
+                                    property: prop.clone(),
+                                    rule: "nonterminating-op".into(),
+                                    step: -1,
+                                    detail: format!("a run of this plan made no progress for {} s of wall-clock time: an operation does not terminate", crate::driver::HANG_SECS),
+                                    seed,
+                                    run: idx,
+                                    tier: tier.clone(),
+                                    profile: if j.dev { "dev".into() } else { "release".into() },
+                                    original_ops: plan.ops.len(),
+                                    original_faults: plan.faults.len(),
+                                    plan,
+                                },
+                                known: false,
+                            }),
+                            None => {
+                                eprintln!("harness error: worker {ji} reported a hang at plan {idx}/{var} but the plan could not be rebuilt");
                                 harness_errors += 1;
                             }
                         }
@@ -235,6 +274,7 @@ pub fn check(a: &BTreeMap<String, String>) -> i32 {
         }
     }
     merged.found.extend(crash_found);
+    merged.found.extend(hang_found);
 
     // ---- report
     let mut lines: Vec<String> = Vec::new();
